@@ -269,6 +269,10 @@ fn closed_gates(findings: &[Finding]) -> HashSet<String> {
         .collect()
 }
 
+pub fn all_closed_gates() -> HashSet<String> {
+    closed_gates(&load_findings())
+}
+
 // ---------------------------------------------------------------------------
 // case bytes
 
